@@ -246,7 +246,16 @@ class CollisionArray:
 
                         # Dataset names are hardcoded, eg. "top, top"
                         datasetName = particle1.name + ", " + particle2.name
+                        if datasetName not in file:
+                            raise CollisionLoadError(
+                                f"CollisionArray error: dataset '{datasetName}' not found in {filename}."
+                            )
                         collisionDataset = np.array(file[datasetName][:])
+                        if collisionDataset.shape != 4 * (size - 1,):
+                            raise CollisionLoadError(
+                                f"""CollisionArray error: dataset '{datasetName}' in {filename}
+                                has shape {collisionDataset.shape}, expected {4 * (size - 1,)}."""
+                            )
 
                         if not "collisionFileArray" in locals():
                             collisionFileArray = np.zeros(
